@@ -56,6 +56,22 @@ def h64(obj):
     return hashlib.blake2b(obj, digest_size=8).hexdigest()
 
 
+def fresh(x):
+    """An object equal to x, of the same type, that is not x wherever the language allows it (identity of keys, serial
+    numbers, probes must never matter; small ints, single characters, None and booleans are singletons anyway)."""
+    if x is None or isinstance(x, bool):
+        return x
+    if isinstance(x, int):
+        return int(str(x)) if abs(x) > 256 and x.bit_length() < 10000 else x
+    if isinstance(x, float):
+        return float.fromhex(x.hex()) if x == x else x
+    if isinstance(x, str):
+        return "".join(list(x)) if len(x) > 1 else x
+    if isinstance(x, tuple):
+        return tuple(fresh(e) for e in x) if x else x
+    return x
+
+
 class Violation(Exception):
     """Raised by an oracle; carries a mechanism key (for the known-findings file) and a witness."""
 
